@@ -17,14 +17,48 @@ type vdWeighted struct {
 	run    func(c *vdCase)
 }
 
-func vdOps(mode string) []vdWeighted {
+// vdWideAlphabet is the alphabet of the "wide" profile: 16 names (15 under the
+// case-insensitive normaliser), so that one directory can hold 12-16 entries.
+var vdWideAlphabet = []string{"a", "b", "A", "c", ".hidden", "d", "e", "f", "g", "h", "i", "j", "k", "l", "m", "n"}
+
+func vdOps(mode, profile string) []vdWeighted {
 	fault := 1
 	bulk := 1
+	leaf := 5
 	if mode == "C14" {
 		fault = 6
 		bulk = 2
+		leaf = 10
+	}
+	if profile == "wide" {
+		// One directory is filled to 12-16 names and listed through several
+		// cursors with page sizes 1-8 / "all" while entries come and go.
+		return []vdWeighted{
+			{"wide_fill", 6, (*vdCase).opWideFill},
+			{"mkdir", 3, (*vdCase).opMkdir},
+			{"open", 5, (*vdCase).opOpen},
+			{"mknod", 4, (*vdCase).opMknod},
+			{"link", 4, (*vdCase).opLink},
+			{"rename", 10, (*vdCase).opRename},
+			{"vremove", 12, (*vdCase).opVirtualRemove},
+			{"cursor_open", 8, (*vdCase).opCursorOpen},
+			{"cursor_next", 30, (*vdCase).opCursorNext},
+			{"create_children", 4, (*vdCase).opCreateChildren},
+			{"create_and_enter", 1, (*vdCase).opCreateAndEnter},
+			{"remove", 5, (*vdCase).opRemove},
+			{"remove_all_children", 1, (*vdCase).opRemoveAllChildren},
+			{"filter_children", 1, (*vdCase).opFilterChildren},
+			{"invoke_remover", 1, (*vdCase).opInvokeRemover},
+			{"fault", 1, (*vdCase).opToggleFault},
+			{"clock", 1, func(c *vdCase) { c.w.clock.now = c.w.clock.now.Add(time.Second) }},
+		}
 	}
 	return []vdWeighted{
+		{"install_hooks", 2, (*vdCase).opInstallHooks},
+		{"dir_apply", 3, (*vdCase).opDirApply},
+		{"dir_setattr", 3, (*vdCase).opDirSetAttributes},
+		{"leaf_session", leaf, (*vdCase).opLeafSession},
+		{"leaf_setattr", 3, (*vdCase).opLeafSetAttributes},
 		{"mkdir", 7, (*vdCase).opMkdir},
 		{"open", 12, (*vdCase).opOpen},
 		{"mknod", 6, (*vdCase).opMknod},
@@ -47,15 +81,27 @@ func vdOps(mode string) []vdWeighted {
 }
 
 // runCase executes one generated case in the given mode and records it.
-func vdRunCase(rt *rapid.T, rec *simkit.Recorder, mode string) {
+// profile is "std", "wide", or "mixed" (one case in six is wide).
+func vdRunCase(rt *rapid.T, rec *simkit.Recorder, mode, profile string) {
+	wideTest := profile == "wide"
+	if profile == "mixed" {
+		profile = "std"
+		if rapid.IntRange(0, 5).Draw(rt, "wide_profile") == 0 {
+			profile = "wide"
+		}
+	}
 	handles := rapid.SampledFrom([]string{"nfs", "fuse"}).Draw(rt, "handle_allocator")
 	caseFold := rapid.Bool().Draw(rt, "case_insensitive")
 	hidden := rapid.Bool().Draw(rt, "hidden_files")
 	w := newVdWorld(handles, caseFold, hidden)
 	c := &vdCase{
-		rt: rt, rec: rec, mode: mode, w: w, m: newModel(caseFold, hidden),
-		cfg:        fmt.Sprintf("{handles:%s caseInsensitive:%v hiddenFiles:%v}", handles, caseFold, hidden),
+		rt: rt, rec: rec, mode: mode, profile: profile, w: w, m: newModel(caseFold, hidden, handles == "nfs"),
+		alphabet:   vdAlphabet,
+		cfg:        fmt.Sprintf("{handles:%s caseInsensitive:%v hiddenFiles:%v profile:%s}", handles, caseFold, hidden, profile),
 		lastChange: map[*mNode]uint64{}, mutations: map[*mNode]int{}, errPairs: map[string]int{}, labels: map[string]bool{},
+	}
+	if profile == "wide" {
+		c.alphabet = vdWideAlphabet
 	}
 	c.register(c.m.root, w.root)
 	// The FUSE removal notifier stands for the kernel being told to drop
@@ -68,7 +114,7 @@ func vdRunCase(rt *rapid.T, rec *simkit.Recorder, mode string) {
 			}
 		}
 	}
-	ops := vdOps(mode)
+	ops := vdOps(mode, profile)
 	// rapid biases integer draws towards small values, so the weighted
 	// table is interleaved: every prefix has roughly the intended mix.
 	var table []int
@@ -110,7 +156,7 @@ func vdRunCase(rt *rapid.T, rec *simkit.Recorder, mode string) {
 		rec.Case(c.script, false, "case_abandoned")
 		return
 	}
-	labels := []string{"handles_" + handles}
+	labels := []string{"handles_" + handles, "profile_" + profile}
 	if caseFold {
 		labels = append(labels, "case_insensitive")
 	}
@@ -130,6 +176,8 @@ func vdRunCase(rt *rapid.T, rec *simkit.Recorder, mode string) {
 	flag(c.sawLazyFail, "injected_failure_hit")
 	flag(c.sawHardLink, "hard_link")
 	flag(c.cursorsCompleted > 0, "listing_completed")
+	flag(c.sawWideCompleted, "wide_listing_completed_across_mutation")
+	flag(c.sawDupTarget, "symlinks_with_equal_targets")
 	for l, on := range c.labels {
 		if on {
 			rec.Label(l)
@@ -147,10 +195,12 @@ func vdRunCase(rt *rapid.T, rec *simkit.Recorder, mode string) {
 		rec.LabelN("ret:"+k, c.errPairs[k])
 	}
 	nontrivial := false
-	switch mode {
-	case "C13":
+	switch {
+	case mode == "C13" && wideTest:
+		nontrivial = c.sawWideCompleted
+	case mode == "C13":
 		nontrivial = (c.sawRenameOver || c.sawRemoveHard) && c.sawInterleaved
-	case "C14":
+	case mode == "C14":
 		nontrivial = c.sawError
 	}
 	rec.Case(c.script, nontrivial, labels...)
@@ -158,12 +208,18 @@ func vdRunCase(rt *rapid.T, rec *simkit.Recorder, mode string) {
 
 func TestC13DirectoryModel(t *testing.T) {
 	rec := simkit.NewRecorder(t, "C13", "directory_model",
-		"rapid state machine over the real InMemoryPrepopulatedDirectory (pool-backed file allocator over an in-memory pool, NFS or FUSE handle allocator, case-sensitive or -insensitive normaliser, optional hidden-files matcher, fake clock): every kernel-facing Virtual* call and every worker-facing bulk call (incl. lazily populated subdirectories and saved FilterChildren removers), names from {a,b,A,c,.hidden}, up to 6 live directories plus removed ones that are still referenced. Oracle: naive POSIX-style reference tree; after every call the status/errno, ChangeInfo, the complete observable state of every known directory (LookupAllChildren, ReadDir, VirtualReadDir, VirtualLookup/LookupChild of every name, object identity, link counts, inode numbers, file bytes through every hard link) and the change IDs are compared; paginated listings are kept open across mutations and checked for exactly-once reporting when they end. Non-trivial: (a rename onto an existing entry OR removal of a non-empty directory / a mutation attempted on a removed directory) AND a paginated listing that saw a mutation of its directory between two of its pages; distinct by script hash")
-	rapid.Check(t, func(rt *rapid.T) { vdRunCase(rt, rec, "C13") })
+		"rapid state machine over the real InMemoryPrepopulatedDirectory (pool-backed file allocator over an in-memory pool, NFS or FUSE handle allocator, case-sensitive or -insensitive normaliser, optional hidden-files matcher, fake clock): every kernel-facing Virtual* call and every worker-facing bulk call (incl. lazily populated subdirectories and saved FilterChildren removers; also InstallHooks, VirtualApply, VirtualSetAttributes on directories, and open/read/write/seek/allocate/setattr/close sessions on regular files with one-shot failures of the pool file), names from {a,b,A,c,.hidden}, up to 6 live directories plus removed ones that are still referenced, symlink targets that repeat, colliding spellings of one name; one case in six uses the wide profile (see wide_listings). Oracle: naive POSIX-style reference tree; after every call the status/errno, ChangeInfo, the complete observable state of every known directory (LookupAllChildren, ReadDir, VirtualReadDir, VirtualLookup/LookupChild of every name, object identity, link counts, inode numbers, file bytes through every hard link) and the change IDs are compared; paginated listings are kept open across mutations and checked for exactly-once reporting when they end. Non-trivial: (a rename onto an existing entry OR removal of a non-empty directory / a mutation attempted on a removed directory) AND a paginated listing that saw a mutation of its directory between two of its pages; distinct by script hash")
+	rapid.Check(t, func(rt *rapid.T) { vdRunCase(rt, rec, "C13", "mixed") })
+}
+
+func TestC13WideListings(t *testing.T) {
+	rec := simkit.NewRecorder(t, "C13", "wide_listings",
+		"the directory_model state machine in its 'wide' profile: 16 names {a,b,A,c,.hidden,d..n}; a wide_fill call (CreateChildren of 4-12 absent names, files/symlinks/lazy directories) brings one directory to 12-16 entries; up to 4 paginated listings with page sizes 1-8 or 'all' are kept open while entries are removed, renamed and added; three in ten cursor steps rewind the listing to an arbitrary earlier cookie that was handed out (also one whose entry has been removed since). Oracle: as directory_model (naive POSIX tree after every call) and per listing: cookies strictly increase, no incarnation of an entry is reported twice, nothing is reported that is not in the directory, and when the listing ends every entry that existed from its first page on was reported exactly once. Non-trivial: a listing that had at least 9 visible entries in its directory at one of its pages, saw a mutation of the directory between two pages and ran to the end; distinct by script hash")
+	rapid.Check(t, func(rt *rapid.T) { vdRunCase(rt, rec, "C13", "wide") })
 }
 
 func TestC14DirectoryLockLeak(t *testing.T) {
 	rec := simkit.NewRecorder(t, "C14", "directory_lock_leak",
-		"same call grammar as C13 with injected failures at higher rates (failing InitialContentsFetcher, file allocator, file pool, symlink factory; calls on removed and on uninitialised directories; every bulk call). Oracle: after EVERY call, inside every FilterChildren callback and after the read-only verification calls, VerifLockIsFree/VerifDirectoryLockIsFree for every directory object known so far, VerifLeafLockIsFree for every pool-backed file and the NFS handle pool lock must all report free (no call is in progress, so a held lock was leaked by the call just made, which is named); FUSE NotifyRemoval must run with no directory lock held. The next call is only issued after all probes passed, so a leak is reported instead of hanging. Non-trivial: the case contained a call that returned an error / non-OK status; labels ret:<function>:<code> show which error returns were reached; distinct by script hash")
-	rapid.Check(t, func(rt *rapid.T) { vdRunCase(rt, rec, "C14") })
+		"same call grammar as C13 with injected failures at higher rates (failing InitialContentsFetcher, file allocator, file pool, symlink factory; calls on removed and on uninitialised directories; every bulk call; InstallHooks, VirtualApply, VirtualSetAttributes on directories; on pool-backed files VirtualOpenSelf incl. O_TRUNC / unlinked files / share masks 0,4,7, VirtualRead, VirtualWrite, VirtualSeek, VirtualAllocate, VirtualSetAttributes, VirtualClose, each with a generated one-shot failure of the pool file's ReadAt, WriteAt (also short), Truncate or GetNextRegionOffset). Oracle: after EVERY call, inside every FilterChildren callback and after the read-only verification calls, VerifLockIsFree/VerifDirectoryLockIsFree for every directory object known so far, VerifLeafLockIsFree for every pool-backed file and the NFS handle pool lock must all report free (no call is in progress, so a held lock was leaked by the call just made, which is named); FUSE NotifyRemoval must run with no directory lock held. The next call is only issued after all probes passed, so a leak is reported instead of hanging. Non-trivial: the case contained a call that returned an error / non-OK status; labels ret:<function>:<code> show which error returns were reached; distinct by script hash")
+	rapid.Check(t, func(rt *rapid.T) { vdRunCase(rt, rec, "C14", "std") })
 }
